@@ -369,9 +369,24 @@ theorem preState_cd (cl : Bool) (st : Index) (f : Path) (v : Version) (fr : File
     unfold cleanupDefs
     split <;> exact ⟨rfl, rfl⟩
 
+/-- the version an analysis leaves in the cache: the text as it is, together - when it does not
+    parse - with the record carried over from the file's previous cache entry -/
+def cachedAs (st : Index) (f : Path) (v : Version) : Version :=
+  match v.parsed with
+  | none => carry st f v
+  | some _ => v
+
+theorem cachedAs_parsed (st : Index) (f : Path) (v : Version) :
+    (cachedAs st f v).parsed = v.parsed ∧ (cachedAs st f v).text = v.text := by
+  unfold cachedAs carry
+  cases h : v.parsed with
+  | none => exact ⟨rfl, rfl⟩
+  | some fr => exact ⟨h, rfl⟩
+
 theorem analyze_cd (pfx : Path) (cl : Bool) (st : Index) (f : Path) (v : Version) :
-    (analyze pfx cl st f v).1.disk = st.disk ∧ (analyze pfx cl st f v).1.cache = ainsert st.cache f v := by
-  unfold analyze
+    (analyze pfx cl st f v).1.disk = st.disk ∧
+    (analyze pfx cl st f v).1.cache = ainsert st.cache f (cachedAs st f v) := by
+  unfold analyze cachedAs
   cases v.parsed with
   | none => exact ⟨rfl, rfl⟩
   | some fr =>
